@@ -27,6 +27,7 @@ def run(ctx, sess):
     ctx.rule('C03.h', 'a stop between two complete writes never leaves a rewritten payload with its old CRC: every payload that is rewritten in place (jls_raw_wr_payload called outside the append operation) reaches the backend, together with its CRC footer, as one write (traced for the constant length the caller passes)')
     ctx.rule('C03.i', 'pointer repair writes the chunk it cut: after `X.hdr.item_next = 0` on a local chunk X every path reaches jls_core_update_chunk_header(core, &X) for the same X before X is re-assigned or the function returns')
     ctx.rule('C03.j', 'repair appends END at the end of the file: in jls_rd_open no path leads from a call that can move the file position (pointer repair, scans, FSR rebuild) to jls_core_wr_end without passing jls_raw_seek_end')
+    ctx.rule('C03.k', 'the backward scan for the last valid chunk examines every 8-byte aligned offset: traced with candidates that never match, the offsets handed to the header CRC cover every multiple of 8 between the first chunk and the end of the file (no offset falls between two windows)')
     ctx.rule('C03.d', 'truncation is reachable only from the repair branch of jls_rd_open')
     ra(ctx, P)
     seq = rb(ctx, P)
@@ -36,6 +37,7 @@ def run(ctx, sess):
     rf_(ctx, P)
     single_write_rule(ctx, P)
     cut_link_rule(ctx, P)
+    scan_coverage_rule(ctx, P)
     end_at_end_rule(ctx, P)
     from .c14 import head_table_rule, WRITER_ROOT_PREFIXES
     roots = sorted(f.name for f in P.all_functions() if f.api and f.name.startswith(WRITER_ROOT_PREFIXES))
@@ -454,3 +456,39 @@ def end_at_end_rule(ctx, P):
                'after %s() the file position can be in the middle of the file when END is written: END overwrites a valid chunk (a file without FSR signals never seeks back to the end)' % bad[0].callee,
                bad[1].render() if bad else None)
     ctx.floor('END writes in repair', n, 1)
+
+
+def scan_coverage_rule(ctx, P):
+    from ..fd import trace_calls, Top
+    fn = P.fn('jls_core_rd_chunk_end')
+    ctx.saw(fn, 1)
+    hdr = P.record('jls_chunk_header_s')['size']
+    bad = []
+    sizes = (4096, 5000, 7777, 1024, 1056, 2056, 12345)
+    tested_total = 0
+    for fend in sizes:
+        env = {'backend.fend': fend, 'self': 1, 'h.crc32': 1}
+        try:
+            # with candidates that never match the scan runs past the first chunk (infeasible on a file that was opened:
+            # the chunks read during the open are valid); a prefix of the call sequence is enough
+            calls = trace_calls(P, fn, env, assume_calls=0, max_steps=40000, partial=True)
+        except Top:
+            bad.append('file size %d: the scan skeleton is not decidable' % fend)
+            continue
+        pos = None
+        tested = set()
+        for callee, args, ev in calls:
+            if callee == 'jls_bk_fseek' and len(args) > 1 and isinstance(args[1], int):
+                pos = args[1]
+            if callee == 'jls_crc32c_hdr' and args and isinstance(args[0], tuple) and args[0][0] == 'off' and pos is not None:
+                tested.add(pos + args[0][2])
+        tested_total += len(tested)
+        end = fend & ~7
+        want = set(range(8, end - hdr + 1, 8))
+        missing = sorted(want - tested)
+        if missing:
+            bad.append('file size %d: offsets %s%s are never examined' % (fend, missing[:4], ' ...' if len(missing) > 4 else ''))
+    ctx.ob('C03.k', not bad, fn.name, 'backward scan covers every aligned offset', fn.where(),
+           '%d candidate offsets traced over %d file sizes, none skipped' % (tested_total, len(sizes)) if not bad else
+           '; '.join(bad[:2]) + ': a last chunk that starts there is not found and the chunk before it is taken as the end of the file (one more chunk is lost)')
+    ctx.floor('candidate offsets traced in the backward scan', tested_total, 1000)
